@@ -201,7 +201,7 @@ func solveAll(obls []*Obligation, workDir string, timeoutS, seed, par int, cache
 	// with other seeds. (Only "unknown" is retried; a refutation stands.)
 	var again []*Obligation
 	for _, o := range obls {
-		if o.Status == "unknown" && !o.ExpectSat {
+		if o.Status == "unknown" && !o.ExpectSat && !o.Brief {
 			again = append(again, o)
 		}
 	}
@@ -233,6 +233,9 @@ func solveAll(obls []*Obligation, workDir string, timeoutS, seed, par int, cache
 var renderMu sync.Mutex
 
 func (o *Obligation) solve(workDir string, timeoutS, seed int, cache *solveCache) {
+	if o.Brief && timeoutS > 4 {
+		timeoutS = 4
+	}
 	if len(o.Sub) > 0 {
 		quick := 4
 		if timeoutS < quick {
